@@ -112,6 +112,10 @@ const FOLLOWUPS: [Op; 6] =
 
 pub fn sweep<const N: usize, P: Pad>(ctx: &mut Ctx) {
     let thorough = ctx.args.thorough;
+    let lean = ctx.args.flag("lean");
+    let mut lean_ctr = 0u64;
+    let opfilter: Option<Vec<String>> = ctx.args.get("opfilter").map(|s| s.split(',').map(|x| x.to_string()).collect());
+    let noforget = ctx.args.flag("noforget");
     let routes: Vec<u8> = ctx.args.list("routes", &[0, 1, 2, 3, 4, 5, 6]).iter().map(|&x| x as u8).collect();
     let starts = if N == 0 { 1 } else { N };
     // calibrate geometry before the first case so that ids are not disturbed inside cases
@@ -121,11 +125,33 @@ pub fn sweep<const N: usize, P: Pad>(ctx: &mut Ctx) {
         for len in 0..=N {
             let ops = op_list(N, len, thorough);
             for op in ops.iter() {
-                let opd = format!("{:?}", op);
-                let key = hash64(&format!("{}|{}|{}|{}|{}", N, P::NAME, start, len, opd));
-                if !ctx.mine(key) {
+                if let Some(f) = &opfilter {
+                    if !f.iter().any(|x| op.name().contains(x.as_str())) {
+                        continue;
+                    }
+                }
+                if noforget && matches!(op, Op::Drain(_, _, End::Forget)) {
                     continue;
                 }
+                lean_ctr += 1;
+                if lean {
+                    // the sanitizer is the oracle: thin out the documented-panic cases (unwinding is very
+                    // slow there)
+                    let invalid = match op {
+                        Op::RangeCollect(r) | Op::RangeMutCollect(r) | Op::Drain(r, _, _) => crate::model::resolve_range(*r, len).is_none(),
+                        Op::Index(i) | Op::Write(MutView::IndexMut, i, _) => *i >= len,
+                        Op::Swap(i, j) => *i >= len || *j >= len,
+                        _ => false,
+                    };
+                    if invalid && lean_ctr % 16 != 0 {
+                        continue;
+                    }
+                }
+                if !ctx.mine_next() {
+                    continue;
+                }
+                let opd = format!("{:?}", op);
+                let key = hash64(&format!("{}|{}|{}|{}|{}", N, P::NAME, start, len, opd));
                 for &route in &routes {
                     if N == 0 && !(route == 0 || route == 3) {
                         continue;
@@ -160,12 +186,12 @@ pub fn sweep<const N: usize, P: Pad>(ctx: &mut Ctx) {
                         ctx.layouts.insert(hash64(&format!("{}|{}|e{}", N, P::NAME, start)));
                     }
                     let mut env = Env::<N, P>::new(vc);
-                    let out = step(&mut h, &mut model, op, &mut env, ctx, &MonCfg::FULL, None, Some(&obs));
+                    let out = step(&mut h, &mut model, op, &mut env, ctx, &MonCfg::main(lean), None, Some(&obs));
                     if op.is_mutator() || out.panicked {
                         ctx.distinct.insert(key);
                     }
                     if op.is_mutator() {
-                        for f in FOLLOWUPS.iter() {
+                        for f in FOLLOWUPS.iter().take(if lean { 3 } else { 6 }) {
                             step(&mut h, &mut model, f, &mut env, ctx, &MonCfg::LIGHT, None, None);
                         }
                     }
